@@ -10,7 +10,7 @@ def parseCall (w : String) : Option Call :=
   match w with
   | "open-src" => some .openSrc | "fstat-src" => some .fstatSrc | "ftruncate" => some .ftruncate | "open-dst" => some .openDst
   | "fstat-dst" => some .fstatDst | "cfr" => some .cfr | "alloc" => some .alloc | "read" => some .read | "write" => some .write
-  | "fdatasync" => some .fdatasync | "close" => some .close | _ => none
+  | "fdatasync" => some .fdatasync | "close-dst" => some .closeDst | "close-src" => some .closeSrc | _ => none
 
 /-- `call#n=Ename` / `call#n=shortK` / `alloc#n=fail` -/
 def parseFault (w : String) : Option (Call × Nat × Fault) :=
